@@ -498,13 +498,15 @@ pub fn run(tier: &str, seed: u64) -> i32 {
         c.dedup = true;
         chain.push(c);
     }
-    for (sname, spec) in &sets {
-        let mut spec = spec.clone();
-        spec.derives_for.clear();
-        chain.push(Case::new(RegSrc::Prog(real_shapes_program()), spec, format!("D-real {sname}")));
+    for (pname, prog) in special_programs() {
+        for (sname, spec) in &sets {
+            let mut spec = spec.clone();
+            spec.derives_for.clear();
+            chain.push(Case::new(RegSrc::Prog(prog.clone()), spec, format!("{pname} {sname}")));
+        }
     }
     report.add(sweep(
-        "D-chain(polkadot: every variant / struct of every item without generic parameters x settings) + D-real(real-metadata shapes)",
+        "D-chain(polkadot: every variant / struct of every item without generic parameters x settings) + D-real / D-deep / degenerate registries",
         &chain,
         Duration::from_secs(120),
         |c| json!({"case": c.note}),
